@@ -154,6 +154,70 @@ Proof.
   specialize (Henn eq_refl). discriminate.
 Qed.
 
+(* ------------------------------------------------------------------ everything the parser accepts is well formed *)
+Lemma parse_int64_range s z r : parse_int64 s = Some (z, r) -> in_i64P z.
+Proof.
+  unfold parse_int64, in_i64P. destruct (match s with c :: _ => c =? 45 | [] => false end).
+  - destruct (parse_nat (tl s)) as [[n r']|]; [|discriminate].
+    destruct (N.leb_spec n 9223372036854775808); [|discriminate]. intros [= <- _]. lia.
+  - destruct (parse_nat s) as [[n r']|]; [|discriminate].
+    destruct (N.ltb_spec n 9223372036854775808); [|discriminate]. intros [= <- _]. lia.
+Qed.
+
+Lemma parse_uint32_range s n r : parse_uint32 s = Some (n, r) -> n < 4294967296.
+Proof.
+  unfold parse_uint32. destruct (parse_nat s) as [[m r']|]; [|discriminate].
+  destruct (N.ltb_spec m 4294967296); [|discriminate]. now intros [= <- _].
+Qed.
+
+Lemma parse_elems_ok : forall fuel s l r, parse_elems fuel s = Some (l, r) -> sums_ok l.
+Proof.
+  induction fuel as [|fuel IH]; intros s l r; cbn [parse_elems]; [discriminate|].
+  destruct (parse_uint32 s) as [[n r1]|] eqn:E; [|discriminate].
+  apply parse_uint32_range in E. destruct r1 as [|c r2]; [discriminate|].
+  destruct (c =? 44).
+  - destruct (parse_elems fuel r2) as [[l' r3]|] eqn:E2; [|discriminate].
+    intros [= <- _]. constructor; [assumption|]. eapply IH; eassumption.
+  - destruct (c =? 93); [|discriminate]. intros [= <- _]. constructor; [assumption|constructor].
+Qed.
+
+Lemma parse_sums_ok s l enn r : parse_sums s = Some (l, enn, r) -> sums_ok l /\ (enn = true -> l = []).
+Proof.
+  unfold parse_sums. destruct (expect (codes "null") s).
+  - intros [= <- <- _]. split; [constructor|reflexivity].
+  - destruct s as [|c r0]; [discriminate|]. destruct (c =? 91); [|discriminate].
+    destruct (match r0 with c2 :: _ => c2 =? 93 | [] => false end).
+    + intros [= <- <- _]. split; [constructor|reflexivity].
+    + destruct (parse_elems (length r0) r0) as [[l' r']|] eqn:E; [|discriminate].
+      intros [= <- <- _]. split; [eapply parse_elems_ok; eassumption|discriminate].
+Qed.
+
+Lemma read_name_ok : forall s n r, read_name s = Some (n, r) -> Forall name_char_ok n.
+Proof.
+  induction s as [|c s IH]; intros n r; cbn [read_name]; [discriminate|].
+  destruct (N.eqb_spec c 34); [intros [= <- _]; constructor|].
+  destruct (N.eqb_spec c 92); [discriminate|]. destruct (N.ltb_spec c 32); [discriminate|].
+  destruct (N.ltb_spec 127 c); [discriminate|]. cbn [orb].
+  destruct (read_name s) as [[n' r']|] eqn:E; [|discriminate]. intros [= <- _].
+  constructor; [unfold name_char_ok; lia|]. eapply IH; reflexivity.
+Qed.
+
+Theorem parse_info_wf raw i : parse_info raw = Some i -> wf_info i.
+Proof.
+  unfold parse_info.
+  destruct (expect _ raw) as [s1|]; [|discriminate].
+  destruct (parse_int64 s1) as [[pl s2]|] eqn:E1; [|discriminate].
+  destruct (expect _ s2) as [s3|]; [|discriminate].
+  destruct (parse_sums s3) as [[[sums enn] s4]|] eqn:E2; [|discriminate].
+  destruct (expect _ s4) as [s5|]; [|discriminate].
+  destruct (read_name s5) as [[name s6]|] eqn:E3; [|discriminate].
+  destruct (expect _ s6) as [s7|]; [|discriminate].
+  destruct (parse_int64 s7) as [[len s8]|] eqn:E4; [|discriminate].
+  destruct (expect _ s8) as [[|? ?]|]; try discriminate. intros [= <-].
+  apply parse_int64_range in E1, E4. apply parse_sums_ok in E2. apply read_name_ok in E3.
+  destruct E2 as [Hs He]. constructor; assumption.
+Qed.
+
 Section Hash.
 Variable sha1 : list N -> list N.
 
@@ -183,6 +247,15 @@ Theorem deserialize_consistent raw mi : deserialize sha1 raw = Ok mi ->
 Proof.
   unfold deserialize. destruct (parse_info raw) as [i|]; [|discriminate].
   destruct (valid_name (i_name i)) eqn:E; [|discriminate]. intros [= <-]. auto.
+Qed.
+
+(* hence: whatever DeserializeMetaInfo accepts survives Serialize + DeserializeMetaInfo unchanged *)
+Theorem reserialize_stable raw mi : deserialize sha1 raw = Ok mi ->
+  deserialize sha1 (serialize mi) = Ok mi.
+Proof.
+  unfold deserialize at 1. destruct (parse_info raw) as [i|] eqn:E; [|discriminate].
+  destruct (valid_name (i_name i)) eqn:Hn; [|discriminate]. intros [= <-].
+  apply deserialize_serialize; cbn [mi_info]; [now apply (parse_info_wf raw)|assumption].
 Qed.
 
 Section Sum.
